@@ -109,7 +109,11 @@ fn build_twin(route: usize, obs: &[Entry], rng: &mut Rng, orig: &Object) -> Opti
 
 fn viol(id: &str, msg: String) -> Option<Violation> { Some(Violation { check_id: id.to_string(), message: msg }) }
 
-fn show(es: &[Entry]) -> String { format!("{{{}}}", es.iter().map(|e| format!("{:?}: {}", e.key.as_str(), e.value)).collect::<Vec<_>>().join(", ")) }
+fn show(es: &[Entry]) -> String {
+    let item = |e: &Entry| format!("{:?}: {}", e.key.as_str(), e.value);
+    if es.len() <= 16 { format!("{{{}}}", es.iter().map(item).collect::<Vec<_>>().join(", ")) }
+    else { format!("{{{}, … ({} entries) …, {}}}", es[..6].iter().map(item).collect::<Vec<_>>().join(", "), es.len(), es[es.len() - 6..].iter().map(item).collect::<Vec<_>>().join(", ")) }
+}
 
 /// A pair that must be indistinguishable to Eq / Ord / Hash.
 fn must_be_equal<T: Eq + Ord + Hash>(a: &T, b: &T, what: &str) -> Option<Violation> {
@@ -190,7 +194,8 @@ pub fn run_c14(sc: &HistSc, st: &mut Stats) -> super::c06::HistOutcome {
         }
         // near copies
         if !obs.is_empty() {
-            let j = rng.usize_below(obs.len());
+            // position of the difference: biased to the ends (a comparison that stops early or skips a tail shows there)
+            let j = match rng.below(4) { 0 => 0, 1 => obs.len() - 1, 2 => obs.len() - 1 - rng.usize_below(obs.len().min(64)), _ => rng.usize_below(obs.len()) };
             set_hash_config(hash_mode_of("good"), rng.next_u64());
             let mut near: Vec<(&'static str, Vec<Entry>)> = vec![];
             { let mut e = obs.clone(); e[j].value = different_leaf(&e[j].value); near.push(("one value changed", e)); }
